@@ -141,6 +141,11 @@ class Exec:
             s.sid = self.world.app_log.ord_sid.get(s.ord)
         return s.sid
 
+    def event_steps_for(self, s):
+        sid = self.sid_of(s)
+        al = self.world.app_log
+        return [st for (t, e, x, a), st in zip(al.events, al.steps) if x == sid]
+
     def ord_of_sid(self, sid):
         return self.world.app_log.sid_ord.get(sid)
 
@@ -325,6 +330,7 @@ class Exec:
         self._picks = a.get('sched') or []
         self._pick_i = 0
         self._det = self.annotate(a)
+        self.world.app_log.step = len(self.actions)
         op = a['op']
         getattr(self, 'op_' + op)(a)
         if a.get('settle', True) and op not in ('advance',):
@@ -353,8 +359,22 @@ class Exec:
         return {'live': bool(live and quiet), 'settled_after': bool(a.get('settle', True)),
                 'other_causes': bool(s.causes) or s.vanished}
 
+    def annotate_live(self, s, a=None):
+        a = a or self.actions[-1]
+        if self.sid_of(s) is None:
+            return None
+        n = len(self.actions) - 1
+        quiet = n == 0 or n in self.quiet_points
+        evs = self.events_for(s)
+        live = any(e == 'connect' for _, e, _ in evs) and \
+            not any(e == 'disconnect' for _, e, _ in evs) and s.expect_accept
+        prior = [c for c in s.causes if c.get('step') != len(self.actions)]
+        return {'live': bool(live and quiet), 'settled_after': bool(a.get('settle', True)),
+                'other_causes': bool(prior) or s.vanished}
+
     def op_open(self, a):
         s = Sess(len(self.sessions), a.get('transport', 'polling'))
+        s.t_open = self.now
         self.sessions.append(s)
         oc = a.get('connect')
         if oc is not None:
@@ -451,7 +471,8 @@ class Exec:
         self.world.ws_client_close(conn)
         conn.t_peer_closed = self.now
         if conn is s.main_ws:
-            s.causes.append({'t': self.now, 'cause': 'ws-close'})
+            s.causes.append({'t': self.now, 'cause': 'ws-close', 'step': len(self.actions),
+                             'det': self.annotate_live(s)})
 
     def op_ws_fail(self, a):
         s = self.sess(a['s'])
@@ -461,7 +482,8 @@ class Exec:
         self.world.ws_fail(conn)
         conn.t_peer_closed = self.now
         if conn is s.main_ws:
-            s.causes.append({'t': self.now, 'cause': 'ws-fail'})
+            s.causes.append({'t': self.now, 'cause': 'ws-fail', 'step': len(self.actions),
+                             'det': self.annotate_live(s)})
 
     def op_pong(self, a):
         s = self.sess(a['s'])
@@ -494,14 +516,16 @@ class Exec:
             c = self.world.call('disconnect')
             c.sess = None
             for s in self.sessions:
-                s.causes.append({'t': self.now, 'cause': 'api', 'call': c})
+                s.causes.append({'t': self.now, 'cause': 'api', 'call': c,
+                                 'step': len(self.actions), 'det': self.annotate_live(s, a)})
             return
         s = self.sess(a['s'])
         if s is None:
             return
         c = self.world.call('disconnect', self.sid_of(s) or 'nosuchsid')
         c.sess = s
-        s.causes.append({'t': self.now, 'cause': 'api', 'call': c})
+        s.causes.append({'t': self.now, 'cause': 'api', 'call': c, 'step': len(self.actions),
+                         'det': self.annotate_live(s, a)})
 
     def op_api(self, a):
         s = self.sess(a['s'])
